@@ -116,6 +116,10 @@ def run(F, ck, tier):
         has = any(e.kind == 'call' and e.name in vnames for e in fl.events)
         ck.ob('R03.2', 'pin:compressed:shape-unvalidated', has, 'compressed proof shape validated' if has else
               'no length of CompressedProof / CompressedFriProof / CompressedFriQueryRounds is pinned: surplus components (an extra sibling, an extra map entry) are accepted, missing ones panic', '%s:%d' % (cv[0].file, cv[0].line))
+    # ---- R03.9 Merkle verification ends in the comparison with the cap (shared with C12)
+    ck.rule('R03.9', 'every Merkle path check ends in a comparison of the recomputed digest with the cap entry, on every path length (R12.3 of C12): without it the leaf data of that oracle is not bound to the commitment')
+    from . import c12, report
+    c12.run(F, report.FilterProxy(ck, {'R12.3': 'R03.9'}), tier)
     # ---- R03.8 circuit digest construction
     ck.rule('R03.8', 'the circuit digest that seeds every transcript is computed from the preprocessed cap, the (padded-hashed, because variable-length) domain separator and the degree')
     tb = [f for f in F.find('CircuitBuilder::try_build_with_options', crate='plonky2')]
